@@ -306,6 +306,11 @@ class Tensor(SymArr):
 
     @property
     def dtype(self):
+        # `dt`: storage dtype stated by the contract's setup for an INPUT tensor (value kind of the argument); the engine still
+        # computes with mathematical numbers (A1/A2) - the tag only feeds dtype-valued arguments / clauses
+        dt = self.__dict__.get("dt")
+        if dt is not None:
+            return dt
         return {"int": torch.int64, "real": torch.float32, "bool": torch.bool}.get(self.kind, torch.float32)
 
 
